@@ -276,6 +276,9 @@ func ReadMappingValues(remainder []byte, map_length Integer) (values *MappingVal
 	var remainder_updated []byte
 	remainder_updated, map_values, errs = parseKeyValuePairs(remainder, map_values, errs)
 	values = &map_values
+	// Hand back what the pair loop did not consume; the named result used to be
+	// left nil on every path, so callers could not tell how much had been read.
+	remainder_bytes = remainder_updated
 
 	log.WithFields(logger.Fields{
 		"values_count":     len(map_values),
